@@ -58,7 +58,18 @@ func genNodeCase(seed uint64, tier, focus, variant string) *simk.Case {
 			c.Cfg["peers"] = np
 		}
 	}
+	if focus == "C20" {
+		c.Cfg["recompute"] = cfgR.PickS("1s", "2s", "5s")
+		c.Cfg["broadcast"] = cfgR.PickS("2s", "5s", "10s")
+		c.Cfg["purge"] = cfgR.PickS("20s", "60s", "10m")
+		np = cfgR.Range(1, 5)
+		c.Cfg["peers"] = np
+		c.Cfg["fail_rate"] = []float64{0, 0, 0.1, 0.3}[cfgR.Intn(4)]
+	}
 	nb := r.Range(1, 6)
+	if focus == "C20" {
+		nb = r.Range(3, 12)
+	}
 	ex := nodeExtra{}
 	for i := 0; i < nb; i++ {
 		ex.Bundles = append(ex.Bundles, genSpec(r, i, np, focus, algo))
@@ -98,6 +109,9 @@ func genNodeCase(seed uint64, tier, focus, variant string) *simk.Case {
 		nops = r.Range(20, 60)
 	}
 	injected := map[int]bool{}
+	if focus == "C20" {
+		return genDtlsrOps(c, r, &ex, np, nb, tier)
+	}
 	if focus == "C19" {
 		nops = r.Range(10, 80)
 		if tier == "thorough" && r.Bool(0.3) {
@@ -198,6 +212,13 @@ func genSpec(r *simk.Rand, i, np int, focus, algo string) BSpec {
 	}
 	if focus == "C07" {
 		sp.Dst = simNodeEID + "app"
+	}
+	if focus == "C20" {
+		// unicast probes towards nodes the link-state data talks about; never locally originated
+		sp.Dst = lsNode(r.Pick(1, 2, 3, 4, 5, 11, 12, 13))
+		if np > 0 && r.Bool(0.3) {
+			sp.Dst = lsNode(r.Range(1, np))
+		}
 	}
 	if focus == "C19" {
 		// endpoints that summary vectors talk about
@@ -303,4 +324,70 @@ func genSpec(r *simk.Rand, i, np int, focus, algo string) BSpec {
 		sp.Spray = r.Pick(1, 1, 2, 3, 4, 7, 8)
 	}
 	return sp
+}
+
+// genDtlsrOps: link-state histories with reordering, duplication, staleness and equal timestamps,
+// neighbour changes, ticks, and unicast probes (DESIGN.md §4 C20).
+func genDtlsrOps(c *simk.Case, r *simk.Rand, ex *nodeExtra, np, nb int, tier string) *simk.Case {
+	for i := range ex.Bundles {
+		sp := &ex.Bundles[i]
+		// probes come from elsewhere, live long, carry nothing special
+		sp.Src, sp.CT, sp.AgeMs, sp.HopLimit, sp.Unknown, sp.Flags, sp.ReportTo = fmt.Sprintf("dtn://s%d/app", 1+i%3), "now", -1, -1, nil, 0, ""
+		sp.Seq = uint64(i + 1)
+		sp.LifeMs = 7200000
+		sp.Prev = 0
+		if np > 0 && r.Bool(0.5) {
+			sp.Prev = r.Range(1, np)
+		}
+		if sp.Dst == simPeerEID(sp.Prev) {
+			sp.Prev = 0
+		}
+	}
+	n := r.Range(8, 40)
+	if tier == "thorough" && r.Bool(0.3) {
+		n = r.Range(40, 120)
+	}
+	elapsed := int64(0)
+	probe := 0
+	origins := []int{1, 2, 3, 4, 5, 11, 12, 13}
+	var tsPool []int64
+	for len(c.Ops) < n {
+		switch x := r.Intn(100); {
+		case x < 14:
+			c.Ops = append(c.Ops, simk.Op{K: "peer_up", P: r.Range(1, np)})
+		case x < 20:
+			c.Ops = append(c.Ops, simk.Op{K: "peer_down", P: r.Range(1, np)})
+		case x < 50:
+			o := origins[r.Intn(len(origins))]
+			var xs []int
+			for k := r.Range(0, 4); k > 0; k-- {
+				nbr := r.Pick(0, 1, 2, 3, 4, 5, 11, 12, 13)
+				lt := 0
+				if r.Bool(0.4) {
+					lt = int(r.Range(-200000, int(elapsed))) + 1
+					if lt == 0 {
+						lt = 1
+					}
+				}
+				xs = append(xs, nbr, lt)
+			}
+			ts := int64(r.Range(-100000, int(elapsed)))
+			if len(tsPool) > 0 && r.Bool(0.3) {
+				ts = tsPool[r.Intn(len(tsPool))] // equal / older timestamps: stale and duplicate data
+			}
+			tsPool = append(tsPool, ts)
+			c.Ops = append(c.Ops, simk.Op{K: "ls", P: r.Range(0, np), M: int64(o), N: ts, X: xs})
+		case x < 75:
+			ms := int64(r.Pick(300, 1100, 2100, 5200, 11000, 25000, 65000))
+			elapsed += ms
+			c.Ops = append(c.Ops, simk.Op{K: "advance", N: ms})
+		default:
+			if probe < nb {
+				c.Ops = append(c.Ops, simk.Op{K: "deliver", B: probe, P: ex.Bundles[probe].Prev})
+				probe++
+			}
+		}
+	}
+	c.Cfg["extra"] = *ex
+	return c
 }
